@@ -72,6 +72,9 @@ pub const HI_BIT: u32 = Limb::BITS - 1;
 pub assume_specification [u64::overflowing_add] (a: u64, b: u64) -> (r: (u64, bool))
     ensures r.1 == (a as int + b as int >= 0x1_0000_0000_0000_0000),
         r.0 as int == (if a as int + b as int >= 0x1_0000_0000_0000_0000 { a as int + b as int - 0x1_0000_0000_0000_0000 } else { a as int + b as int });
+// assert!(cond, "{}", msg) expands to a call of this diverging function: reaching it is a proof obligation (requires false)
+pub assume_specification<T: core::fmt::Display> [core::panicking::panic_display::<T>] (x: &T) -> !
+    requires false;
 pub open spec fn wneg64(x: u64) -> u64 { if x == 0 { 0u64 } else { (0x1_0000_0000_0000_0000 - x as int) as u64 } }
 pub open spec fn wneg32(x: u32) -> u32 { if x == 0 { 0u32 } else { (0x1_0000_0000 - x as int) as u32 } }
 pub open spec fn wneg128(x: u128) -> u128 { if x == 0 { 0u128 } else { (0x1_0000_0000_0000_0000_0000_0000_0000_0000 - x as int) as u128 } }
